@@ -682,12 +682,6 @@ func (c *c14upCase) afterRestart(rng *kit.Rand) {
 
 // ------------------------------------------------------------------ the monitor
 
-type c14upOpDesc struct {
-	Op    string `json:"op"`
-	Class string `json:"key_class"`
-	Txn   bool   `json:"in_txn,omitempty"`
-}
-
 func c14upSettle(v *vCore) {
 	// the conversion goroutine either stopped at the fault or goes on for a few
 	// operations; wait for the store to go quiet (bounded). Only the workload
